@@ -15,8 +15,8 @@ def inflightRev (c : Client) : Option Nat :=
   | .createCommit r => some r
   | .createReread r => some r
   | .createRetry r => some r
-  | .createOver r _ => some r
-  | .createRecheck r => some r
+  | .createOver r _ _ => some r
+  | .createRecheck r _ => some r
   | .updateCommit r => some r
   | .deleteCommit r _ _ => some r
   | _ => none
